@@ -37,6 +37,7 @@ int main(int argc, char **argv) {
     RUN("queue_unblock_contended", std::min(o.threads, 4), true, scn::queue_unblock_contended(o, R, T, o.cases));
     RUN("publisher_two_publishers", o.threads, true, scn::publisher_two_publishers(o, R, T, o.cases));
     RUN("pool_nested", 1, true, scn::pool_nested(o, R, o.cases / 8 + 1));
+    RUN("pool_dependent", 1, true, scn::pool_dependent(o, R, o.cases / 8 + 1));
     RUN("frame_owned_parties", 1, true, scn::frame_owned_parties(o, R, o.cases / 4 + 1));
     RUN("async_programs", 1, true, scn::async_programs(o, R, o.cases));
     return 0;
